@@ -96,6 +96,12 @@ def dense_spec(rng, nt=None, nc=None, ns=None, nsw=None, curated=None, whiten=No
         channel_positions=D._positions(rng, nc),
         templates=[[[float(rng.randrange(-8, 9)) for _ in range(nc)] for _ in range(nsw)] for _ in range(nt)],
     )
+    if rng.random() < .3:
+        # localised templates: exactly zero on some channels (as KiloSort's dense templates are away from the unit)
+        for t in spec['templates']:
+            for c in rng.sample(range(nc), rng.randrange(0, nc)):
+                for row in t:
+                    row[c] = 0.
     # make sure no template is flat everywhere
     for t in spec['templates']:
         if all(len({row[c] for row in t}) == 1 for c in range(nc)):
